@@ -271,7 +271,7 @@ pub fn prop() -> Prop {
         gen,
         check,
         panic_is_violation: false,
-        budget: (400_000, 12_000_000),
+        budget: (2400000, 72000000),
         extra: Some(extra),
         required: &["split_happened", "hyphen_penalty_set", "no_penalty_after_existing_hyphen", "broken", "broken_with_sequences", "overwide_single_char_piece", "pass_through", "empty_word"],
         known: None,
